@@ -302,6 +302,8 @@ func vJsepBehaviour(t *testing.T, tr *vkTrace, sigs *vSigEvents, bh vjBehaviour)
 			switch {
 			case src == "empty":
 				d = SessionDescription{Type: ty}
+			case src == "peerx":
+				d = vPeerOfferX(t)
 			case st.Type == "offer" || st.Type == "rollback":
 				d = vPeerOffer(t)
 			default:
